@@ -163,7 +163,15 @@ fn deep_case(bytes: &[u8]) -> (EvalCase, usize) {
 }
 
 fn missing_lookup(d: &mut Dec) -> Expr {
-    match d.below(5) {
+    match d.below(9) {
+        // a None that is present in the data (not a missing key), then further steps
+        5 => Expr::index(Expr::reff("vn"), Index::Map("x".into())),
+        6 => Expr::index(Expr::index(Expr::Value(Value::Vec(vec![Value::None])), Index::Vec(0)), Index::Map("x".into())),
+        7 => Expr::index(Expr::index(Expr::index(Expr::reff("vn"), Index::Vec(0)), Index::Map("y".into())), Index::Vec(2)),
+        8 => Expr::index(
+            Expr::index(Expr::Map([("a".to_string(), Expr::Value(Value::None))].into_iter().collect()), Index::Map("a".into())),
+            Index::Vec(1),
+        ),
         0 => Expr::index(Expr::reff("vm"), Index::Map("nokey".into())),
         1 => Expr::index(Expr::reff("vl"), Index::Vec(99)),
         2 => Expr::index(Expr::index(Expr::reff("vm"), Index::Map("nokey".into())), Index::Map("x".into())),
